@@ -18,11 +18,11 @@ PROOF_NOTE = ("Trusted: Lean 4.33 kernel with axioms {propext, Classical.choice,
 PROPS = {
     "C09": {
         "level": "proof",
-        "text": "Kernel-checked theorems for every label list (= every schedule, number of senders, capacity): mailbox occupancy + reserved permits <= capacity; capacity/default/once-only configuration proved on functions translated from src/lib.rs on every run. The model is validated against the real crate by per-run correspondence (seeded scripts on a paused Tokio runtime) and the occupancy monitor runs on every real trace. Real threads: a spawn_blocking sender's blocking_tell(.., None) calls into a full capacity-1 mailbox all wait and return Ok (stress blocking a2); a cancelled send holds no slot (stress cancel). Step-level, any state: free_slot_no_wait (a send issued while a slot is free and nobody is queued ahead holds its permit at once) and full_mailbox_waits (otherwise it is queued FIFO: no failure recorded, mailbox untouched). no_idle_slot (every reachable state): while the mailbox is open, a sender is queued without a permit only when mailbox items + permits handed out = capacity.",
+        "text": "Kernel-checked theorems for every label list (= every schedule, number of senders, capacity): mailbox occupancy + reserved permits <= capacity; capacity/default/once-only configuration proved on functions translated from src/lib.rs on every run. The model is validated against the real crate by per-run correspondence (seeded scripts on a paused Tokio runtime) and the occupancy monitor runs on every real trace. Real threads: a spawn_blocking sender's blocking_tell(.., None) calls into a full capacity-1 mailbox all wait and return Ok (stress blocking a2); a cancelled send holds no slot (stress cancel). Step-level, any state: free_slot_no_wait (a send issued while a slot is free and nobody is queued ahead holds its permit at once) and full_mailbox_waits (otherwise it is queued FIFO: no failure recorded, mailbox untouched). no_idle_slot (every reachable state): while the mailbox is open, a sender is queued without a permit only when mailbox items + permits handed out = capacity. Net engine (detection build): a hook's tell into its own full mailbox waits or times out - it never ends the hook with a panic.",
         "note": PROOF_NOTE,
         "technique": "Lean 4 invariant proof by induction over label sequences + translated config functions + model/implementation correspondence",
         "monitors": ["C09"],
-        "extra": ["tables", "stress"],
+        "extra": ["tables", "stress", "netcorr"],
         "corr": corr(["shutdown", "burst", "mixed", "timeouts"]),
         "extract_items": ["DEFAULT_MAILBOX_CAPACITY", "set_default_mailbox_capacity", "spawn_capacity", "spawn_with_mailbox_capacity"],
         "assumptions": COMMON_ASSUME + ["a granted-but-unpushed permit reserves a slot (the bound is on pushed + granted)"],
@@ -32,10 +32,10 @@ PROPS = {
 PROPS.update({
     "C01": {
         "level": "proof",
-        "text": "Kernel-checked theorems over every label list: at_most_once, handled_were_accepted, rejected_never (state form and on the monitor predicate evaluated on real traces), graceful_complete (everything the loop has dequeued has been handled) and marker_is_next (when the loop dequeues a stop marker everything accepted before it has been dequeued). The model's mailbox is tied to the code by per-run correspondence; the acceptance probe makes 'accepted' observable on the real side; monitors C01.atMostOnce / rejectedNever / gracefulComplete run on every real trace. Stress scenario `selfchain`: work that keeps itself alive - each handler tells its own actor the next step (directly, through a task holding a clone, or by upgrading a weak handle) after the spawner dropped its handle: every step is handled before on_stop. Progress: accepted_message_is_not_left_waiting - when nothing can run any more, no accepted message sits in the mailbox of an idle actor.",
+        "text": "Kernel-checked theorems over every label list: at_most_once, handled_were_accepted, rejected_never (state form and on the monitor predicate evaluated on real traces), graceful_complete (everything the loop has dequeued has been handled) and marker_is_next (when the loop dequeues a stop marker everything accepted before it has been dequeued). The model's mailbox is tied to the code by per-run correspondence; the acceptance probe makes 'accepted' observable on the real side; monitors C01.atMostOnce / rejectedNever / gracefulComplete run on every real trace. Stress scenario `selfchain`: work that keeps itself alive - each handler tells its own actor the next step (directly, through a task holding a clone, or by upgrading a weak handle) after the spawner dropped its handle: every step is handled before on_stop. Progress: accepted_message_is_not_left_waiting - when nothing can run any more, no accepted message sits in the mailbox of an idle actor. Net engine (detection build): hooks that tell their own actor and stop it from inside; on every history a tell that returned Ok before the graceful on_stop began is handled before it.",
         "note": PROOF_NOTE + "",
         "technique": "Lean 4 invariant proofs (FIFO log, id freshness, rejection) by induction over label sequences + correspondence + Lean monitors on real traces",
-        "extra": ["stress"],
+        "extra": ["stress", "netcorr"],
         "monitors": ["C01"],
         "corr": corr(["abandon", "eager", "shutdown", "burst", "mixed", "handles", "timeouts"], erase="both"),
         "extract_items": ["ask_wait_watches_closed"],
@@ -120,7 +120,7 @@ PROPS.update({
         "technique": "Lean 4 fold-invariant proof (budget argument over the split select) + correspondence + Lean monitors on real traces",
         "extra": ["stress"],
         "monitors": ["C06"],
-        "corr": corr(["abandon", "eager", "shutdown", "burst", "mixed", "idle"], erase="both"),
+        "corr": corr(["handles", "abandon", "eager", "shutdown", "burst", "mixed", "idle"], erase="both"),
         "extract_items": [],
         "assumptions": COMMON_ASSUME,
     },
@@ -151,7 +151,7 @@ PROPS.update({
     },
     "C11": {
         "level": "proof",
-        "text": "Kernel-checked: ids_unique for any number of spawns (the allocator constants are extracted from src/lib.rs), alive_true / alive_false (is_alive on a strong handle is true until the actor has ended and false afterwards, for every run), sends_fail_after_end, upgrade_iff. Identity copying and the two-channel liveness predicates are extracted shape lemmas (handle_algebra_shape, forwarders_verbatim). upgrade_truthful_monitor (Inv/Handles: the strong handles read off the trace are those of the handle table, and every failed upgrade in every run happened while the script held none - the predicate Monitor.C11.upgradeTruthful that runs on real traces). Probes alive/upgrade are script operations compared step by step with the real crate; monitor C11 on real traces; stress ids (incl. failing on_start) and refs (no-yield handle sequences, identity through every way of copying a handle between two actors).",
+        "text": "Kernel-checked: ids_unique for any number of spawns (the allocator constants are extracted from src/lib.rs), alive_true / alive_false (is_alive on a strong handle is true until the actor has ended and false afterwards, for every run), sends_fail_after_end, upgrade_iff. Identity copying and the two-channel liveness predicates are extracted shape lemmas (handle_algebra_shape, forwarders_verbatim). upgrade_truthful_monitor (Inv/Handles: the strong handles read off the trace are those of the handle table, and every failed upgrade in every run happened while the script held none - the predicate Monitor.C11.upgradeTruthful that runs on real traces). Probes alive/upgrade are script operations compared step by step with the real crate; monitor C11 on real traces; stress ids (incl. failing on_start) and refs (no-yield handle sequences, identity through every way of copying a handle between two actors). Stress scenario `afterend`: after the JoinHandle resolved (actor ended by kill or stop with messages still queued) is_alive is false and every send fails at once, from worker tasks of a multi-thread runtime and on a current-thread runtime that polls the driver every tick.",
         "note": PROOF_NOTE + " Atomicity of fetch_add is assumed (std); identities of different actors are compared in the multi-actor scripts of C12/C14.",
         "technique": "Lean 4 theorems on the step function and the allocator + extracted shape lemmas + correspondence with liveness probes",
         "extra": ["stress"],
@@ -212,7 +212,7 @@ PROPS.update({
     },
     "C17": {
         "level": "proof",
-        "text": "PARTIAL (the wall-clock deadline bound is checked on real runs only, see the end of this text). Kernel-checked: aliases (tell_blocking/ask_blocking delegate to blocking_tell/blocking_ask and the dispatchers pick the timeout/no-timeout implementation: extracted), blocking_same_paths (blocking variants build the same envelope and use the same sender as tell/ask; timeout variants run tell/ask under tokio::time::timeout on a helper thread with a timer runtime: extracted), blocking_inherits (every label-list theorem covers callers on any thread: at-most-once, rejected-never, reply integrity, dead letters). Real side (multi-thread runtime, real clock): 1/4/16 plain threads issuing all six blocking forms against a live actor (delivery exactly once, per-thread order, reply integrity, aliases ignore the timeout); deadlines against a slow actor with a full mailbox (not early, not later than deadline + 300 ms); stopped actor (every variant fails at once with Send and a dead letter); timeout variants called from inside a runtime context (no panic). NOT proved: the wall-clock bound itself (it is a property of the OS scheduler, thread spawn and Tokio timer; checked with slack on real runs only). The deprecated aliases given Some(30 ms) against a full mailbox / a slow handler wait like the None forms (b9); a blocking call that timed out records exactly one dead letter whatever happens to the actor afterwards (b10).",
+        "text": "PARTIAL (the wall-clock deadline bound is checked on real runs only, see the end of this text). Kernel-checked: aliases (tell_blocking/ask_blocking delegate to blocking_tell/blocking_ask and the dispatchers pick the timeout/no-timeout implementation: extracted), blocking_same_paths (blocking variants build the same envelope and use the same sender as tell/ask; timeout variants run tell/ask under tokio::time::timeout on a helper thread with a timer runtime: extracted), blocking_inherits (every label-list theorem covers callers on any thread: at-most-once, rejected-never, reply integrity, dead letters). Real side (multi-thread runtime, real clock): 1/4/16 plain threads issuing all six blocking forms against a live actor (delivery exactly once, per-thread order, reply integrity, aliases ignore the timeout); deadlines against a slow actor with a full mailbox (not early, not later than deadline + 300 ms); stopped actor (every variant fails at once with Send and a dead letter); timeout variants called from inside a runtime context (no panic). NOT proved: the wall-clock bound itself (it is a property of the OS scheduler, thread spawn and Tokio timer; checked with slack on real runs only). The deprecated aliases given Some(30 ms) against a full mailbox / a slow handler wait like the None forms (b9); a blocking call that timed out records exactly one dead letter whatever happens to the actor afterwards (b10). (c3) a handler's timed blocking_tell into its own full mailbox times out like tell_with_timeout; (b13) timed blocking calls on different threads do not wait for one another; the blocking scenario is run a second time on the build with all optional features.",
         "note": PROOF_NOTE + " The blocking API needs real threads; the step-by-step correspondence (single-threaded, paused clock) cannot run it, so the real side is oracle-only.",
         "technique": "Lean 4 theorems on the model + extracted send-path equalities; real-thread stress runs under property oracles",
         "monitors": ["C01", "C03", "C13"],
@@ -254,7 +254,7 @@ PROPS.update({
 PROPS.update({
     "C19": {
         "level": "proof",
-        "text": "Kernel-checked: decision_table - for every form of the #[handler] attribute (bare, any list of result/no_log/unknown options in any order and multiplicity, name-value), every declared return type (none, any path type, any other type) and both answers to 'is it really a Result', the macro's decision (compile error / impl that logs Err after tell / impl that logs nothing) equals the documented table stated independently; corollaries no_log_never_logs, result_and_no_log_is_error, non_result_logs_nothing, result_spelling_logs. is_result_type and the should_generate block are translated from rsactor-derive/src/lib.rs on every run; option parsing and the quote! templates (Reply = declared return type, handle = self.method(msg, actor_ref).await, generated on_tell_result = `if let Err(ref e) = result { error!(..) }` only, derive(Actor) = Args Self / Infallible / Ok(args), generics forwarded) are extracted shape lemmas; the runtime calls on_tell_result only without a reply channel (handle_message_shape). Real side: a generated corpus of actor programs over the grammar return-type spelling (15: unit, plain, Result in five spellings incl. bare fmt::Result and bare/generic aliases, alias not named Result, Option, tuple, Box, reference, a user type named Result) x attribute form (11) x actor kind (struct, enum, generic, generic with where clause) x message kind (plain, generic), each with co-existing non-handler methods, compiled against the real macros: programs the model calls errors must fail to compile (without any use site, so only the macro or its output can fail), the others are run through ask and tell with Ok and Err values: replies equal the method's value, error events after tell(Err) = 1 iff the model says 'log' (with the error's Display text), 0 after ask and after tell(Ok), the handler ran once per message, derive(Actor) hands back its argument. Runtime half, kernel-checked on the actor model: tell_result_adjacent (in every run tellResult/replySent occur only immediately after the handler of the same message returned, at most one of them, never after a panic) and result_follows_kind (a tell's handler is followed by on_tell_result and no reply, an ask's by its reply and no on_tell_result); the same automaton (C19.accepts) and the kind-aware C19.adjacent run on every real correspondence trace. Real threads: in the blocking stress scenario the actor overrides on_tell_result: after every tell-family blocking form (blocking_tell with and without timeout, tell_blocking) it is invoked exactly once with the handler's value, after ask-family forms never.",
+        "text": "Kernel-checked: decision_table - for every form of the #[handler] attribute (bare, any list of result/no_log/unknown options in any order and multiplicity, name-value), every declared return type (none, any path type, any other type) and both answers to 'is it really a Result', the macro's decision (compile error / impl that logs Err after tell / impl that logs nothing) equals the documented table stated independently; corollaries no_log_never_logs, result_and_no_log_is_error, non_result_logs_nothing, result_spelling_logs. is_result_type and the should_generate block are translated from rsactor-derive/src/lib.rs on every run; option parsing and the quote! templates (Reply = declared return type, handle = self.method(msg, actor_ref).await, generated on_tell_result = `if let Err(ref e) = result { error!(..) }` only, derive(Actor) = Args Self / Infallible / Ok(args), generics forwarded) are extracted shape lemmas; the runtime calls on_tell_result only without a reply channel (handle_message_shape). Real side: a generated corpus of actor programs over the grammar return-type spelling (15: unit, plain, Result in five spellings incl. bare fmt::Result and bare/generic aliases, alias not named Result, Option, tuple, Box, reference, a user type named Result) x attribute form (11) x actor kind (struct, enum, generic, generic with where clause) x message kind (plain, generic), each with co-existing non-handler methods, compiled against the real macros: programs the model calls errors must fail to compile (without any use site, so only the macro or its output can fail), the others are run through ask and tell with Ok and Err values: replies equal the method's value, error events after tell(Err) = 1 iff the model says 'log' (with the error's Display text), 0 after ask and after tell(Ok), the handler ran once per message, derive(Actor) hands back its argument. Runtime half, kernel-checked on the actor model: tell_result_adjacent (in every run tellResult/replySent occur only immediately after the handler of the same message returned, at most one of them, never after a panic) and result_follows_kind (a tell's handler is followed by on_tell_result and no reply, an ask's by its reply and no on_tell_result); the same automaton (C19.accepts) and the kind-aware C19.adjacent run on every real correspondence trace. Real threads: in the blocking stress scenario the actor overrides on_tell_result: after every tell-family blocking form (blocking_tell with and without timeout, tell_blocking) it is invoked exactly once with the handler's value, after ask-family forms never. Stress askjoin: a handler that returns a JoinHandle - ask_join gives exactly what awaiting that handle gives, whatever happens to the actor meanwhile.",
         "note": PROOF_NOTE + " rustc's own behaviour (trait resolution, `if let Err` typing) is part of the trusted base of the corpus run.",
         "technique": "Lean 4 proof of the decision table over definitions translated from the macro source + extracted templates + generated program corpus compiled and run against the real macros",
         "monitors": ["C19", "C01"],
